@@ -48,6 +48,27 @@ def schedule_obs(ctx):
     return obs
 
 
+def schedule_writeset_obs(ctx, tag="writeset/"):
+    """C12: the reim drivers above the breadth-first / depth-first switch (m > 2048) assign no shared static-lifetime object (kernels replaced by the logging stand-ins,
+    whose own digests are ignored by name): the module-level write-set obligations run at N <= 16 and never reach the recursive large-dimension paths"""
+    obs = []
+    libs = ["reim/reim_fft_ref.c", "reim/reim_ifft_ref.c", "reim/reim_fft_avx2.c", "reim/reim_ifft_avx2.c", "commons_private.c", "commons.c"]
+    fwd = ["reim_fft16_ref", "reim_twiddle_fft_ref", "reim_bitwiddle_fft_ref", "reim_fft16_avx_fma", "reim_twiddle_fft_avx2_fma", "reim_bitwiddle_fft_avx2_fma"]
+    inv = ["reim_ifft16_ref", "reim_invtwiddle_ifft_ref", "reim_invbitwiddle_ifft_ref", "reim_ifft16_avx_fma", "reim_invtwiddle_ifft_avx2_fma", "reim_invbitwiddle_ifft_avx2_fma"]
+    for kind in (0, 1):
+        for m in (64, 2048, 4096, 8192):
+            o = core.AlgOb("%s%s-drivers/m=%d" % (tag, KN[kind], m), "sched.c", "h_sched", "vf.alg.uf:check_shared_writes",
+                           params={"marker": "vf_marker", "statics_only": True, "ignore": r"^vf_|^VF_", "nin": 4}, defs={"KIND": kind, "M": m}, libs=libs,
+                           unwind=max(m // 16 + 40, 200), family="%s drivers (write set)" % KN[kind], timeout=900, mem_gb=16,
+                           desc="reference and AVX2 drivers of dimension m (both sides of the m = 2048 switch to the recursive path), pass kernels replaced by logging stand-ins: "
+                                "no static-lifetime object of the library is assigned during the transforms (a cursor or scratch kept in a file-scope static is a data race "
+                                "between concurrent transforms); confirmed natively by ThreadSanitizer on two threads")
+            o.stubs = fwd if kind == 0 else inv
+            o.bit_flags = []
+            obs.append(o)
+    return obs
+
+
 def layout_obs(ctx):
     """placement of the twiddle table and of the work buffers inside the object built by the real new_*_precomp(m, num_buffers)"""
     obs = []
